@@ -1,6 +1,7 @@
 """C09 - every decode failure is an UnmarshalingException."""
 from pbt import canon, decode_domain as D
 from pbt.lib import UnmarshalingException, frame
+from pbt import fuzzrun
 from pbt.runner import Component, Violation, lib_site
 
 PROPERTY_ID = 'C09'
@@ -108,4 +109,10 @@ COMPONENTS = [
     Component('dense', check, strategy=D.dense_cases,
               budget={'quick': 1600, 'thorough': 32000},
               describe='dense adversarial shapes (+ faults)'),
+    Component('fuzz', check, bulk=fuzzrun.make_bulk('C09', 'C09', {'quick': 60000,
+                                                               'thorough': 3000000}),
+              distinct_by_construction=True,
+              shards={'quick': 4, 'thorough': 16},
+              describe='atheris coverage-guided campaigns (oracle inside the target); '
+                       'every 4th campaign starts from an empty corpus'),
 ]
